@@ -3,11 +3,11 @@ import portcheck
 
 META = {
     "property_id": "C08",
-    "technique": "Coq lemmas on the port model (emitters guarded by the port state; non-BMCA handlers never create a slave) + role oracle ok_C08 evaluated in Coq on implementation traces + trace correspondence",
+    "technique": "Coq instance invariant proved inductive over every host call (at most one slave, master-only never slave, slave-only: no master after the next BMCA run and none later; Port/Inv*.v) + whole-history theorem that the model's own trace satisfies the complete oracle (C08_main) + emitters guarded by the port state + role oracle ok_C08 evaluated in Coq on implementation traces + trace correspondence",
     "category": "proof",
-    "text": "Proved on the model for all inputs: Sync, Follow_Up, Announce and Delay_Resp are produced only in the MASTER state and an end-to-end Delay_Req only in the SLAVE state (otherwise the handlers return no action and leave the port unchanged); measurement handling and the slave-side message handlers never turn a non-slave port into a slave. History level (at most one slave port after every call; master-only ports never slave; no master port while slave-only is in force since the last BMCA run or from the start; role of every emitted frame, measurement and clock call w.r.t. the state shown before the call) is the executable oracle ok_C08 evaluated in Coq on the implementation's traces for 1-3 port instances in all combinations of master-only / slave-only / E2E / P2P.",
+    "text": "Proved for EVERY valid set-up and EVERY sequence of host calls (frames of arbitrary octets, timestamps in [0,2^63 ns), timers, any TLV queue, BMCA runs, run-time slave-only / quality changes): at every reachable state at most one port is slave and a master-only port is not (C08_at_most_one_slave_always); an instance slave-only from the start never has a master port (C08_slave_only_from_start_never_master); after slave-only is switched on, no port is master once the next BMCA run has completed and none becomes master later (C08_slave_only_switch_on); the model's own trace satisfies the COMPLETE oracle ok_C08 for every history (C08_main: states, master-only, slave-only enforcement, role predicates, and per call and port: every emitted frame decodes, master-role frames only from a port that was master, Delay_Req only from the slave port, sync/delay measurements only on the slave port, clock properties only for the port that is slave afterwards). Per handler, for all inputs: Sync, Follow_Up, Announce and Delay_Resp are produced only in the MASTER state and an end-to-end Delay_Req only in the SLAVE state; measurement handling never turns a non-slave port into a slave. On implementation traces the full oracle ok_C08 is evaluated in Coq (incl. role of every emitted frame, measurement and clock call, and Port::is_steering()/is_master() - the predicates statime-linux acts on - agreeing with the port state) for 1-3 port instances in all combinations of master-only / slave-only / E2E / P2P.",
     "design_ref": "DESIGN.md section 6 (C08)",
-    "level_note": "Theorems closed under the global context. The instance-level invariant at_most_one_slave over whole histories (needs: distinct port identities, S1 only for the port whose Erbest is Ebest, every other slave port leaves the slave state in the same run) is not yet proved; it is checked on traces by ok_C08. With the recording filter no clock steering call exists; that the Kalman filter does not steer on peer-delay-only measurements is C13's C13_fresh_filter_quiet.",
+    "level_note": "Theorems closed under the global context; they are about the hand-written model, tied to the code by the correspondence of complete traces (the oracle ok_C08 that C08_main is about is the function evaluated on implementation traces). Hypotheses of the whole-history theorems: setup_valid (1..65534 ports, documented configuration ranges, wire-representable instance configuration) and event_valid (octets 0..255, timestamps in [0,2^63 ns), timestamp contexts and forwarded TLVs as the library hands them out, representable clock quality). With the recording filter no clock steering call exists; that the Kalman filter does not steer on peer-delay-only measurements is C13's C13_fresh_filter_quiet.",
 }
 
 S = portcheck.make(
